@@ -1,6 +1,26 @@
-(* C14 -- the stateful interface discards burn-in afterwards: get_samples().burnthin(Nb, Nt) is Samples.burnthin
-   (the model of property C19) applied to the chain recorded by the sampler model.  No proofs. *)
-From CV Require Import Base.Tac Base.Cmp Model.C19_Stats Model.C14_Chain.
+(* C14 -- the stateful interface discards burn-in afterwards: get_samples().burnthin(Nb, Nt) is Samples.burnthin applied
+   to the chain recorded by the sampler model.  The three definitions below are, verbatim, those of the model of
+   property C19 (Model/C19_Stats.v: stride_aux, thin, burnthin), repeated here so that this development does not have to
+   be recompiled whenever that file changes.  No proofs. *)
+From CV Require Import Base.Tac Base.Cmp Model.C14_Chain.
+
+Section Chain.
+Context {A : Type}.
+Fixpoint stride_aux (p k : nat) (l : list A) : list A :=
+  match l with
+  | [] => []
+  | x :: r => match k with
+              | O => x :: stride_aux p p r
+              | S k' => stride_aux p k' r
+              end
+  end.
+Definition thin (nt : nat) (l : list A) : list A := stride_aux (nt - 1) 0 l.
+(* refused (None) when Nb >= Ns (ValueError) and when Nt = 0 *)
+Definition burnthin (nb nt : nat) (l : list A) : option (list A) :=
+  if (length l <=? nb)%nat then None
+  else if (nt =? 0)%nat then None
+  else Some (thin nt (skipn nb l)).
+End Chain.
 
 Definition check_exp_burnthin (ref : list Z) (ops : list top) (nb nt : nat) (obs : option (list Z)) : bool :=
   opt_eqb zl_eqb (burnthin nb nt (smp (t_run ref ops))) obs.
